@@ -400,6 +400,13 @@ class _EmptyListener(_InstanceLevelDispatch[_ET]):
         return bool(self.parent_listeners)
 
 
+# guards the lazy creation of the per-collection "exec once" mutex.  a plain
+# lock is needed on GIL builds as well, as a thread switch may occur between
+# the "is None" check and the assignment, which would hand two different
+# mutexes to two threads.
+_exec_once_mutex_creation_lock = threading.Lock()
+
+
 class _MutexProtocol(Protocol):
     def __enter__(self) -> bool: ...
 
@@ -433,7 +440,7 @@ class _CompoundListener(_InstanceLevelDispatch[_ET]):
         self._is_asyncio = True
 
     def _get_exec_once_mutex(self) -> _MutexProtocol:
-        with util.mini_gil:
+        with _exec_once_mutex_creation_lock:
             if self._exec_once_mutex is not None:
                 return self._exec_once_mutex
 
